@@ -206,6 +206,17 @@ class Drv:
     def files(self):
         return self.cmd("files")["files"]
 
+    def fork(self):
+        """The driver forks; the child (a copy of every live instance) serves the following commands until endfork()."""
+        r = self.cmd("fork")
+        if "forked" not in r:
+            raise RuntimeError("fork failed: %r" % (r,))
+
+    def endfork(self):
+        r = self.cmd("endfork")
+        if "endfork" not in r:
+            raise RuntimeError("endfork failed: %r" % (r,))
+
     def reset(self):
         self.cmd("reset")
         self.log = []
